@@ -58,6 +58,7 @@ type Frame struct {
 	headers    map[*ssa.BasicBlock]int
 	loopPre    map[int]map[*Object]*ObjState // memory right after havoc at loop N
 	loopGhostPre map[int]map[string]SVal
+	sawDefer     bool
 	ghostLocal map[string]SVal
 	callSite   string
 	noOver     map[*Object]bool
@@ -101,6 +102,11 @@ type Exec struct {
 	strContents    map[int]*Content
 	guarded        map[string]bool
 	structuralOn   bool
+	bbInit         map[string]*bbGhost
+	atomicInit     map[string]*Term
+	mapInit        map[string]*Term
+	freeVarNames   map[string]EV
+	calleeFree     map[*Contract]map[string]EV
 	findings       []*Finding
 }
 
@@ -839,10 +845,40 @@ func (x *Exec) runInstrs(fr *Frame, b *ssa.BasicBlock, i int, st *State, k cont)
 			return
 		case *ssa.Defer:
 			st.defers = append(st.defers, deferred{call: v, fr: fr})
+			if fr.top && x.structuralOn && !fr.sawDefer {
+				// structural obligation (C16/C17): the first deferred function of a goroutine body recovers panics
+				fr.sawDefer = true
+				ok := false
+				var target *ssa.Function
+				switch cv := v.Call.Value.(type) {
+				case *ssa.MakeClosure:
+					target, _ = cv.Fn.(*ssa.Function)
+				case *ssa.Function:
+					target = cv
+				}
+				if target != nil && len(target.Blocks) > 0 {
+					for _, ins := range target.Blocks[0].Instrs {
+						if _, isDbg := ins.(*ssa.DebugRef); isDbg {
+							continue
+						}
+						if call, isCall := ins.(*ssa.Call); isCall {
+							if b, isB := call.Call.Value.(*ssa.Builtin); isB && b.Name() == "recover" {
+								ok = true
+							}
+						}
+						break
+					}
+				}
+				x.addObl(st, fmt.Sprintf("%s/structural/first-deferred-function-recovers", x.key), "structural", x.tb.Bool(ok), v.Pos(), nil)
+			}
 			continue
 		case *ssa.Go:
 			x.warn("go statement: spawned function not executed here (opaque spawn)")
 			st.events = append(st.events, "go")
+			if sp, ok := st.ghost["spawned"]; ok {
+				st.ghost["spawned"] = x.tb.BVBin("bvadd", sp.(*Term), x.tb.BVi(64, 1))
+				x.ghostBound(st, "spawned")
+			}
 			continue
 		case *ssa.RunDefers:
 			idx := i
@@ -986,10 +1022,16 @@ func (x *Exec) step(fr *Frame, st *State, ins ssa.Instruction) bool {
 		}
 		fr.env[v] = &FuncV{Fn: fn, Binds: binds, IsNil: tb.False(), Id: tb.Intc(int64(2000 + x.nextObj)), Sig: fn.Signature, Name: fn.String()}
 	case *ssa.MakeMap, *ssa.MakeChan:
-		fr.env[v.(ssa.Value)] = &OpaqueV{T: v.(ssa.Value).Type(), Id: tb.Fresh("opaque", SInt), IsNil: tb.False()}
+		ov := &OpaqueV{T: v.(ssa.Value).Type(), Id: tb.Fresh("opaque", SInt), IsNil: tb.False()}
+		fr.env[v.(ssa.Value)] = ov
+		st.ghost[fmt.Sprintf("map:%d", ov.Id.id)] = tb.BVi(64, 0)
 	case *ssa.MapUpdate:
-		x.warn("map update not modelled")
-		st.events = append(st.events, "mapupdate")
+		// ghost size only; the key is assumed absent (protocol assumption, listed)
+		if m, ok := x.value(fr, st, v.Map).(*OpaqueV); ok {
+			sz := x.mapSize(st, m)
+			st.ghost[fmt.Sprintf("map:%d", m.Id.id)] = tb.BVBin("bvadd", sz, tb.BVi(64, 1))
+		}
+		x.builtinModels["map insert (ghost size + 1, key assumed absent)"] = true
 	case *ssa.Lookup:
 		x.warn("map/string lookup havocked")
 		fr.env[v] = x.symbolic(st, v.Type(), "lookup", false, 0)
